@@ -3,13 +3,13 @@ CONSTANTS
   Blocks = {"x", "y", "z", "w", "v"}
   InitBands <- MCInitBands
   InitBlocks <- MCInitBlocks
-  Need <- MCNeed2
-  Backups = {"bk1", "bk2"}
-  Gcs = {}
-  GcDeleteChoices <- MCChoices
+  Need <- MCNeed1
+  Backups = {"bk"}
+  Gcs = {"g1", "g2"}
+  GcDeleteChoices <- MCChoicesSmall
   BkRechecksLock = TRUE
   GcRechecksBands = TRUE
   CreateNewEnforced = TRUE
   GcLoserRemovesLock = FALSE
-INVARIANTS OneWinner NoMixing
+INVARIANTS NoLoss LockReleased HoldsImpliesLock OneCollector
 CHECK_DEADLOCK FALSE
